@@ -6,16 +6,17 @@ props = {json.loads(l)["id"]: json.loads(l) for l in open("/verif/properties.jso
 sys.path.insert(0, "/verif/harness")
 READY = sys.argv[1].split(",") if len(sys.argv) > 1 else []
 NOTES = {
- "C01": "filter theorem + exact verdict predicate; candidates' cover (C08) is a hypothesis of the filter theorem; block/SCC/attractor-seed strategies are judged on the code's output only",
+ "C01": "filter theorem, exact verdict predicate, owner uniqueness and global one-to-one for full expansion, composition with the candidate pipeline (pipeline_then_filter_exact); block and attractor-seed expansion are modelled and replayed but their global bijection is decided on the code's output; source-SCC strategy not modelled (known finding D15)",
+ "C03": "BFS, DFS, minimal-space expansion and skip completion: theorems; block / attractor-seed / SCC completeness by comparison with the exact oracle min_traps_b",
  "C05": "PARTIAL with a known finding (D4): structural and cache theorems for skip operations + exact verdict predicates; the skip-node exclusion rule is emulated, not proved",
- "C07": "driver sets: sound, complete, minimal (theorems); succession list: correspondence with Control.successions",
- "C08": "PARTIAL: reduced-STG fixed points and the cover predicate are exact (theorems); that NFVS-reduced fixed points cover every attractor, and the branch structure of the candidate pipeline, are decided by the predicate on every returned list",
- "C12": "PARTIAL: sets via the filter theorem and exact check_sets; symbolic_attractor_test / AEON fallback are judged through the brute-force attractors",
- "C13": "fuel bounds for all modelled loops (theorems); unmodelled loops (symbolic test, simulation) by back-edge budget and watchdog",
- "C16": "PARTIAL: reclaim/pickle preserve all model invariants (theorems); byte-level round trips are runtime behaviour compared on two real diagrams",
+ "C08": "cover theorem for every option and configuration value (candidates_cover_nfvs), incl. the NFVS reduction lemma (nfvs_reduction); engine contract left: AEON's feedback vertex set hits every negative cycle (checked on every recorded NFVS by the verified no_neg_walk_b); the real pipeline is replayed on the model",
+ "C12": "sets via the filter theorem, exact check_sets, and the interleaved reachability model (exact for every heuristic tape); AEON's symbolic fallback is judged through the brute-force attractors",
+ "C13": "fuel bounds for all modelled loops (expansions, block expansion, symbolic test, candidate pipeline); SCC / attractor-seed expansion by back-edge budget and watchdog",
+ "C16": "reclaim_transparent (observational equivalence op by op); byte-level pickle / aeon round trips are runtime behaviour compared on two real diagrams",
  "C17": "PARTIAL: extensionality and polarity-flip equivariance (theorems); renaming/reordering/formats/sanitisation by metamorphic runs",
  "C18": "PARTIAL: product and input-restriction theorems; agreement with AEON on published models is empirical",
  "C19": "PARTIAL: order-independence theorems; hash-seed / process independence is runtime behaviour decided by re-running under several PYTHONHASHSEED values",
+ "C20": "find_node, ids, depth = longest path (all histories), is_subgraph model; summary() by recomputation",
 }
 checks = []
 for pid in sorted(props):
